@@ -377,7 +377,7 @@ FetchKey(t, s) ==
                    s3 == IF tabbed /\ r3.s.err = "" THEN [r3.s EXCEPT !.tse = r3.s.pos] ELSE r3.s
                IN IF s3.err # "" THEN s3
                   ELSE IF tabbed /\ Peek(t, s3, 0) = "-" /\ Peek(t, s3, 1) \in BlankZ THEN Fail(s3, "tabs disallowed in this context")
-                  ELSE LET s4 == IF Peek(t, s3, 0) \in Break \/ ~(r3.tabs \/ r3.ws) THEN SkipYamlWs(t, s3, TRUE) ELSE s3 IN
+                  ELSE LET s4 == IF Peek(t, s3, 0) \in Break \/ ~(r3.tabs \/ r3.ws \/ Peek(t, s3, 0) \in Z) THEN SkipYamlWs(t, s3, TRUE) ELSE s3 IN
                        IF s4.err # "" THEN s4
                        ELSE Push(s4, Tok("Key", m, Mark(s4), <<>>, <<>>))
 
